@@ -69,3 +69,6 @@ add("C15", "c15", "exploration", 300, 6000,
 add("C09", "c09", "exploration", 1500, 40000, exhaustive_if=["ScopePairsSmallUniverse", "ScopeSetsSmallUniverse"],
     assumptions=["the naive model is a Go map keyed by the triple; the documented scope syntax (space-separated type:resource:action[,action]) is transcribed in modelParse",
                  "Len on the unlimited scope panics by documentation and is not called"])
+
+add("C19", "c19", "exploration", 1000, 30000,
+    assumptions=["helpers are simulated by a HelperRunner function (the exec-based runner is not exercised)", "the reference precedence function in c19_test.go transcribes the property statement"])
